@@ -3134,22 +3134,25 @@ namespace awkward {
     }
 
     else if (dtype_ == util::dtype::boolean) {
+      // the kernels step through 'length' bytes and report byte positions:
+      // they are right for one-byte strides only
+      NumpyArray contiguous_self = contiguous();
       int64_t numtrue;
       struct Error err1 = kernel::NumpyArray_getitem_boolean_numtrue(
         kernel::lib::cpu,   // DERIVE
         &numtrue,
-        reinterpret_cast<int8_t*>(data()),
+        reinterpret_cast<int8_t*>(contiguous_self.data()),
         (int64_t)shape_[0],
-        (int64_t)strides_[0]);
+        1);
       util::handle_error(err1, classname(), identities_.get());
 
       Index64 index(numtrue);
       struct Error err2 = kernel::NumpyArray_getitem_boolean_nonzero_64(
         kernel::lib::cpu,   // DERIVE
         index.data(),
-        reinterpret_cast<int8_t*>(data()),
+        reinterpret_cast<int8_t*>(contiguous_self.data()),
         (int64_t)shape_[0],
-        (int64_t)strides_[0]);
+        1);
       util::handle_error(err2, classname(), identities_.get());
 
       std::vector<int64_t> shape({ numtrue });
